@@ -156,15 +156,25 @@ def job(cfg):
     return jr
 
 
-def replay_accessors(name, seed=0):
-    res = {"reproduced": False}
+def replay_accessors(name, seed=0, scale=None):
+    res = {"reproduced": False, "parameter_scale": scale}
     fac, D = FACTORIES[name]
+    if scale is None:
+        # ordinary-scale parameters, then very small ones (reflection vectors of norm ~1e-4: still non-zero, so every
+        # identity holds for them too)
+        for sc_ in (1.0, 1e-4):
+            res = replay_accessors(name, seed, sc_)
+            if res.get("reproduced"):
+                return res
+        return res
     try:
         torch.manual_seed(seed)
         m = fac().double().eval()
         with torch.no_grad():
             for p in m.parameters():
                 p.add_(torch.randn_like(p) * 0.7)
+                if scale != 1.0 and isinstance(m, OR.HouseholderSequence):
+                    p.mul_(scale)
         x = torch.randn(4, D, dtype=torch.float64)
         worst = 0.0
         with torch.no_grad():
@@ -173,7 +183,9 @@ def replay_accessors(name, seed=0):
                 Q = torch.eye(D, dtype=torch.float64)
                 Q, _ = m.inverse(Q)
                 y, lad = m(x)
-                M = m.matrix().double()
+                import copy as _copy
+
+                M = _copy.deepcopy(m).float().matrix().double()  # (matrix() builds a float32 identity internally)
                 worst = max(float((y - x @ Q.t()).abs().max()), float((Q.t() @ Q - torch.eye(D, dtype=torch.float64)).abs().max()), float(lad.abs().max()), float((y - x @ M.t()).abs().max()))
             else:
                 W, Wi, lad = m.weight(), m.weight_inverse(), m.logabsdet()
